@@ -58,6 +58,10 @@ def compare(kind, actual, expected, ctx):
                 return ('C14:nonowner-release-took-effect:%s' % kind,
                         '%s %r held by %r was released by %r' % (
                             kind, key, want, ctx.get('by')))
+            if cls == 'init':
+                return ('C14:initialize-removed-foreign:%s' % kind,
+                        'initialize of one pool removed %s %r held by %r, '
+                        'which another pool handed out' % (kind, key, want))
             if cls == 'create' and key not in pre:
                 return ('C14:created-entry-missing:%s' % kind,
                         '%s %r was acknowledged for %r but is not in the '
